@@ -88,9 +88,9 @@ func formApplies(form string, kinds []string) bool {
 }
 
 type env struct {
-	w    *runner.W
-	bin  string
-	tmp  string // private temp dir of this worker
+	w     *runner.W
+	bin   string
+	tmp   string // private temp dir of this worker
 	seq   int
 	home  string
 	hangs int // processes killed after 60 s; the enumeration stops after 3
